@@ -1,8 +1,9 @@
 CONSTANTS
-  Runs = {"A", "B"}
+  Runs = {"A", "B", "A2"}
+  Shared = {"A2"}
   MaxRows = 3
   MaxSaves = 3
-  AppendInPlace = FALSE
+  AppendInPlace = "prefix"
   Crashes = FALSE
   CrossCheck = FALSE
   SqlDeleteInTxn = TRUE
